@@ -8,7 +8,6 @@ import (
 	"sort"
 	"strings"
 
-	"google.golang.org/protobuf/encoding/protojson"
 	"google.golang.org/protobuf/proto"
 	"google.golang.org/protobuf/reflect/protoreflect"
 
@@ -134,10 +133,8 @@ func admitted(ranges []mediaRange, mediaType string) (matched bool, qmin, qmax f
 	return best >= 0, qmin, qmax
 }
 
-var registeredTypes = []string{"application/json", "application/octet-stream", "application/protobuf"}
-
-func isRegistered(ct string) bool {
-	for _, t := range registeredTypes {
+func isRegistered(kind, ct string) bool {
+	for _, t := range mediaTypesOf(kind) {
 		if t == ct {
 			return true
 		}
@@ -146,7 +143,7 @@ func isRegistered(ct string) bool {
 }
 
 // acceptClass is the structural class of an Accept header.
-func acceptClass(values []string) string {
+func acceptClass(kind string, values []string) string {
 	if len(values) == 0 {
 		return "absent"
 	}
@@ -157,8 +154,10 @@ func acceptClass(values []string) string {
 	var parts []string
 	for _, r := range ranges {
 		sp := []string{"*/*", "type/*", "exact"}[r.specificity()]
-		if r.specificity() == 2 && !isRegistered(r.typ+"/"+r.sub) {
+		if r.specificity() == 2 && !isRegistered(kind, r.typ+"/"+r.sub) {
 			sp = "exact-unregistered"
+		} else if r.specificity() == 2 && isCustomType(r.typ+"/"+r.sub) {
+			sp = "exact-custom"
 		}
 		if r.specificity() == 1 && r.typ != "application" {
 			sp = "type/*-unregistered"
@@ -204,8 +203,27 @@ func outClass(md protoreflect.MessageDescriptor) string {
 }
 
 // execC04 serves the request with the planted reply and checks the response
-// body and headers.
+// body and headers. A failure of a case whose handler touches the response
+// metadata (grpc.SetHeader / SendHeader / SetTrailer) is retried with a plain
+// handler: if that works the finding key names the handler behaviour.
 func execC04(e *env, c *Case) (o outcome) {
+	o = execC04Once(e, c, c.Handler)
+	if len(o.viols) > 0 && c.Handler != "" {
+		if o2 := execC04Once(e, c, ""); len(o2.viols) == 0 && o2.inconcl == "" {
+			hc := c.Handler
+			if strings.Contains(hc, "send-header") {
+				hc = "send-header" // every variant that sends the headers early
+			}
+			for i := range o.viols {
+				o.viols[i].key = keyFamily(o.viols[i].key) + ":handler=" + hc
+				o.viols[i].what += " - the same request is answered correctly when the handler does not call " + c.Handler
+			}
+		}
+	}
+	return o
+}
+
+func execC04Once(e *env, c *Case, handler string) (o outcome) {
 	p, err := newPlan(c.Rule)
 	if err != nil {
 		o.inconcl = "bad case: " + err.Error()
@@ -227,8 +245,10 @@ func execC04(e *env, c *Case) (o outcome) {
 	}
 	want := selected(reply, p.resp)
 	e.rec.setReply(reply)
+	e.rec.setHdrMode(handler)
 	resp, calls := serve(e, c.Req)
 	e.rec.setReply(nil)
+	e.rec.setHdrMode("")
 	hdr := func(k string) string {
 		if v := c.Req.Header[k]; len(v) > 0 {
 			return strings.Join(v, " | ")
@@ -237,6 +257,12 @@ func execC04(e *env, c *Case) (o outcome) {
 	}
 	ctx := fmt.Sprintf("rule %s %s body=%q response_body=%q; request %s %s Content-Type=%s Accept=%s Accept-Encoding=%s", c.Rule.Verb, c.Rule.Tmpl, c.Rule.Body, c.Rule.Resp,
 		c.Req.Verb, c.Req.Path, hdr("Content-Type"), hdr("Accept"), hdr("Accept-Encoding"))
+	if e.kind != "" {
+		ctx += "; mux with " + e.kind + " (" + ctAltJSON + ", " + ctAltProto + ")"
+	}
+	if handler != "" {
+		ctx += "; handler calls " + handler
+	}
 	if resp.Wedged {
 		o.inconcl = "request did not return within the watchdog"
 		return
@@ -301,16 +327,8 @@ func execC04(e *env, c *Case) (o outcome) {
 		return
 	}
 	got := vschema.NewMsg(wmd)
-	var derr error
-	codec := ""
-	switch ct {
-	case "application/json":
-		codec = "json"
-		derr = protojson.Unmarshal(payload, got)
-	case "application/protobuf", "application/octet-stream":
-		codec = "protobuf"
-		derr = proto.Unmarshal(payload, got)
-	default:
+	codec, known, derr := decodeBy(e.kind, ct, payload, got)
+	if !known {
 		o.add("c04:undecodable:content-type-not-a-registered-codec:"+oc, fmt.Sprintf("%s: response Content-Type %q names no registered codec; body %q", ctx, ct, bodySnippet(payload)))
 		return
 	}
@@ -337,10 +355,16 @@ func execC04(e *env, c *Case) (o outcome) {
 		verdict = "accept-absent"
 	} else if ranges, ok := parseAccept7231(acc); ok {
 		anyMust, anyMay := false, false
-		for _, t := range registeredTypes {
+		builtinMust, customMust := false, false
+		for _, t := range e.mediaTypes() {
 			if m, qmin, qmax := admitted(ranges, t); m {
 				anyMust = anyMust || qmin > 0
 				anyMay = anyMay || qmax > 0
+				if qmin > 0 && isCustomType(t) {
+					customMust = true
+				} else if qmin > 0 {
+					builtinMust = true
+				}
 			}
 		}
 		m, _, qmax := admitted(ranges, ct)
@@ -372,6 +396,11 @@ func execC04(e *env, c *Case) (o outcome) {
 			// conditions below
 			cls = "q0-excluded-type-chosen:" + cls
 		}
+		if customMust && !builtinMust {
+			// only media types added with CodecOption satisfy the header: one
+			// key per condition, whatever the ranges look like
+			cls = "admitted=custom-codec-types-only"
+		}
 		switch {
 		case anyMust:
 			if !m || qmax <= 0 {
@@ -401,6 +430,15 @@ func execC04(e *env, c *Case) (o outcome) {
 		o.count("responses_gzip_encoded")
 	}
 	return
+}
+
+// keyFamily keeps the first three segments of a finding key.
+func keyFamily(key string) string {
+	parts := strings.Split(key, ":")
+	if len(parts) > 3 && !strings.HasPrefix(key, "panic@") {
+		parts = parts[:3]
+	}
+	return strings.Join(parts, ":")
 }
 
 func acceptKey(cond, cls string) string {
@@ -477,13 +515,21 @@ var (
 		"multipart/form-data; boundary=xyz", "application/protobuf", "text/plain;charset=\"utf-8\"", "x/y", "application/vnd.api+json; profile=\"a b\""}
 )
 
+// customAccepts name the media types registered with CodecOption.
+var customAccepts = [][]string{
+	{ctAltJSON}, {ctAltProto}, {ctAltJSON + ";q=0.5, text/plain"}, {"application/json;q=0, " + ctAltProto},
+	{"application/json;q=0, application/protobuf;q=0, application/octet-stream;q=0, " + ctAltJSON + ";q=0.1"},
+	{"text/plain, " + ctAltProto + ";q=0.3, image/png"}, {ctAltJSON + ";q=0, */*"}, {ctAltProto, ctAltJSON + ";q=0"},
+	{"application/*;q=0, " + ctAltProto}, {ctAltJSON + ";q=0, " + ctAltProto + ";q=0, text/*"},
+}
+
 func init() {
 	for _, j := range junkPool {
 		fixedAccepts = append(fixedAccepts, []string{j})
 	}
 }
 
-func randAccept(rng *rand.Rand) []string {
+func randAccept(rng *rand.Rand, kind string) []string {
 	n := 1 + rng.Intn(4)
 	var parts []string
 	for i := 0; i < n; i++ {
@@ -492,6 +538,9 @@ func randAccept(rng *rand.Rand) []string {
 			el = junkPool[rng.Intn(len(junkPool))]
 		} else {
 			el = mediaPool[rng.Intn(len(mediaPool))]
+			if kind == muxCustom && rng.Intn(3) == 0 {
+				el = []string{ctAltJSON, ctAltProto}[rng.Intn(2)]
+			}
 			if q := qPool[rng.Intn(len(qPool))]; q != "" {
 				el += semPool[rng.Intn(len(semPool))] + "q=" + q
 			}
@@ -561,7 +610,9 @@ func (g *gen) genReply(md protoreflect.MessageDescriptor) proto.Message {
 
 // c04Case builds a valid request for the rule with the given negotiation
 // headers and a planted reply.
-func (g *gen) c04Case(p *plan, reqCT string, accept, acceptEnc []string) (*Case, error) {
+var c04HandlerModes = []string{"", "send-header", "", "set-header", "", "send-header-empty", "", "set-header+send-header", "", "set-trailer", ""}
+
+func (g *gen) c04Case(p *plan, kind, reqCT string, accept, acceptEnc []string) (*Case, error) {
 	base := vschema.NewMsg(p.in)
 	texts, err := p.fit(g.rng, base, -1)
 	if err != nil {
@@ -605,49 +656,60 @@ func (g *gen) c04Case(p *plan, reqCT string, accept, acceptEnc []string) (*Case,
 	if rc == "" {
 		rc = "absent"
 	}
-	return &Case{Prop: "C04", Kind: "c04", Class: "req=" + strings.TrimPrefix(rc, "application/") + "|accept=" + acceptClass(accept), Rule: p.rule, Req: q,
+	handler := c04HandlerModes[g.n%len(c04HandlerModes)]
+	cls := "req=" + strings.TrimPrefix(rc, "application/") + "|accept=" + acceptClass(kind, accept)
+	if handler != "" {
+		cls += "|handler=" + handler
+	}
+	if kind != "" {
+		cls += "|mux=" + kind
+	}
+	return &Case{Prop: "C04", Kind: "c04", Class: cls, Rule: p.rule, Mux: kind, Handler: handler, Req: q,
 		Reply: wireR, ReplyJSON: jsonOf(reply)}, nil
 }
 
-const ruleC04 = "unary rules returning vf.Req, larking.testpb.ComplexRequest (maps, Struct, Any, every scalar), vf.Rsp, google.api.HttpBody and real larking.testpb methods (GetShelf, GetBook, UpdateBook, GetMessageOne, Files.UploadDownload, WellKnown.Check); with and without response_body (top-level message fields incl. an HttpBody field; body '', '*' and <field>). The recording handler returns a planted reply (generator of C03: boundary / random values, empty, ~160 KiB, HttpBody with content types incl. parameters and arbitrary bytes up to 64 KiB). Requests: Content-Type absent / application/json / application/protobuf / application/octet-stream (optionally gzip bodies), Accept headers = a fixed table (single types, wildcards, q=0 exclusions, all-excluded, junk tokens, google.api.HttpBody, duplicated headers) x all request types, plus random headers (1-4 ranges, exact / type/* / */*, q in {absent,0,0.000,0.001,0.1,0.5,0.9,1,1.000}, OWS variants, junk elements, split over two header lines), Accept-Encoding values. Oracles: independent decode by the response Content-Type (protojson / proto.Unmarshal) and proto.Equal with the reply or its response_body field; HttpBody: body == data and Content-Type == content_type; Content-Encoding gzip must gunzip to the payload, absent / identity means the body is the payload; RFC 7231 5.3.2 evaluator (most specific range wins, q=0 excludes), applied only when the header parses under the evaluated grammar: if a registered type is admitted the response type must be admitted, if none is the response type must be the request's own (JSON when absent). distinct = (rule, response codec, request type, Accept class, admission verdict, response Content-Encoding). Stateful part: sequences of 16-40 requests on one mux against an asset-server handler that owns long-lived buffers (1 B - 40 KB) and long-lived reply messages and serves them repeatedly without copying (fresh HttpBody / vf.Rsp per call whose data / bytes field aliases the buffer; the same long-lived vf.Rsp whose response_body-selected HttpBody or vf.Req sub-message holds it), interleaved with other transcoded requests with request bodies and replies of 0 B - 60 KB in all codecs; every reply is checked against an expectation built from an independent pristine copy, after every step every handler-owned buffer must still equal its pristine copy (canary) and at the end every long-lived reply message must equal a freshly built one; distinct there = (asset shape, codec) of assets served again intact after other traffic"
+const ruleC04 = "unary rules returning vf.Req, larking.testpb.ComplexRequest (maps, Struct, Any, every scalar), vf.Rsp, google.api.HttpBody and real larking.testpb methods (GetShelf, GetBook, UpdateBook, GetMessageOne, Files.UploadDownload, WellKnown.Check); with and without response_body (top-level message fields incl. an HttpBody field; body '', '*' and <field>). The recording handler returns a planted reply (generator of C03: boundary / random values, empty, ~160 KiB, HttpBody with content types incl. parameters and arbitrary bytes up to 64 KiB). Requests: Content-Type absent / application/json / application/protobuf / application/octet-stream (optionally gzip bodies), Accept headers = a fixed table (single types, wildcards, q=0 exclusions, all-excluded, junk tokens, google.api.HttpBody, duplicated headers) x all request types, plus random headers (1-4 ranges, exact / type/* / */*, q in {absent,0,0.000,0.001,0.1,0.5,0.9,1,1.000}, OWS variants, junk elements, split over two header lines), Accept-Encoding values. Two further dimensions: (1) the handler touches the response metadata before returning (every 2nd case: grpc.SetHeader, grpc.SendHeader = headers sent early, SendHeader(nil), SetHeader+SendHeader, SetTrailer) - a failure that disappears with a plain handler is keyed handler=<mode>; (2) every rule also lives on a mux with two extra media types registered through larking.CodecOption (application/x-vf-json, application/x-vf-proto; magic-prefixed so the decoder can tell the named codec produced the body): there the registered universe has five types, request bodies / Content-Types and Accept headers name the extra types (fixed table of 10 headers x all six request types, the general fixed table with rotating request types, a third of the random headers). Oracles: independent decode by the response Content-Type (protojson / proto.Unmarshal / the harness decoders of the extra codecs) and proto.Equal with the reply or its response_body field; HttpBody: body == data and Content-Type == content_type; Content-Encoding gzip must gunzip to the payload, absent / identity means the body is the payload; RFC 7231 5.3.2 evaluator (most specific range wins, q=0 excludes), applied only when the header parses under the evaluated grammar: if a registered type is admitted the response type must be admitted, if none is the response type must be the request's own (JSON when absent). distinct = (rule, response codec, request type, Accept class, admission verdict, response Content-Encoding). Stateful part: sequences of 16-40 requests on one mux against an asset-server handler that owns long-lived buffers (1 B - 40 KB) and long-lived reply messages and serves them repeatedly without copying (fresh HttpBody / vf.Rsp per call whose data / bytes field aliases the buffer; the same long-lived vf.Rsp whose response_body-selected HttpBody or vf.Req sub-message holds it), interleaved with other transcoded requests with request bodies and replies of 0 B - 60 KB in all codecs; every reply is checked against an expectation built from an independent pristine copy, after every step every handler-owned buffer must still equal its pristine copy (canary) and at the end every long-lived reply message must equal a freshly built one; distinct there = (asset shape, codec) of assets served again intact after other traffic"
 
 // RunC04 is the unary-response-fidelity check.
 func RunC04(r *mon.Run) {
 	r.Rule = ruleC04
 	r.Floor = 150
-	r.Assume("replies are far below the default send limit; request content types are the three registered media types or absent; Accept headers outside the evaluated RFC 7231 grammar (media-type parameters, accept-ext, upper case, empty elements, quoted strings) only get the no-crash / decodable-by-own-Content-Type check; response compression itself is not required by the property, only the truthfulness of Content-Encoding")
+	r.Assume("replies are far below the default send limit; request content types are the registered media types of the mux under test (three built-in ones, plus two CodecOption types on the custom-codecs mux) or absent; Accept headers outside the evaluated RFC 7231 grammar (media-type parameters, accept-ext, upper case, empty elements, quoted strings) only get the no-crash / decodable-by-own-Content-Type check; response compression itself is not required by the property, only the truthfulness of Content-Encoding")
 	g := &gen{r: r, rng: r.Rand("c04")}
 	dyn, real := replyRules()
-	envD, err := buildDynamic(dyn)
-	if err != nil {
-		r.Inconclusive("harness: " + err.Error())
-		return
-	}
-	envR, err := buildTestpb()
-	if err != nil {
-		r.Inconclusive("harness: " + err.Error())
-		return
-	}
 	all := append(append([]RuleSpec(nil), dyn...), real...)
 	type rp struct {
 		p *plan
 		e *env
 	}
-	var plans []rp
-	for _, rule := range all {
-		p, err := newPlan(rule)
+	plansOf := map[string][]rp{}
+	for _, kind := range []string{"", muxCustom} {
+		envD, err := buildDynamic(dyn, kind)
 		if err != nil {
 			r.Inconclusive("harness: " + err.Error())
-			continue
+			return
 		}
-		e := envD
-		if rule.Svc != "" {
-			e = envR
+		envR, err := buildTestpb(kind)
+		if err != nil {
+			r.Inconclusive("harness: " + err.Error())
+			return
 		}
-		plans = append(plans, rp{p, e})
+		for _, rule := range all {
+			p, err := newPlan(rule)
+			if err != nil {
+				r.Inconclusive("harness: " + err.Error())
+				continue
+			}
+			e := envD
+			if rule.Svc != "" {
+				e = envR
+			}
+			plansOf[kind] = append(plansOf[kind], rp{p, e})
+		}
 	}
+	plans := plansOf[""]
 	do := func(x rp, reqCT string, acc, ae []string) {
-		c, err := g.c04Case(x.p, reqCT, acc, ae)
+		c, err := g.c04Case(x.p, x.e.kind, reqCT, acc, ae)
 		if err != nil {
 			r.Count("generator_rejected_case", 1)
 			r.Set("generator_reject_example", x.p.rule.ID+": "+err.Error())
@@ -663,16 +725,34 @@ func RunC04(r *mon.Run) {
 			}
 		}
 	}
+	// the mux with two extra CodecOption media types: the fixed table plus
+	// headers naming the extra types, request types rotating over all six
+	customTypes := append(append([]string(nil), requestTypes...), ctAltJSON, ctAltProto)
+	for xi, x := range plansOf[muxCustom] {
+		for i, acc := range append(append([][]string(nil), customAccepts...), fixedAccepts...) {
+			if i < len(customAccepts) {
+				for _, ct := range customTypes {
+					do(x, ct, acc, acceptEncodingPool[(i+xi)%len(acceptEncodingPool)])
+				}
+				continue
+			}
+			do(x, customTypes[(i+xi)%len(customTypes)], acc, acceptEncodingPool[(i+xi)%len(acceptEncodingPool)])
+		}
+	}
 	// stateful sequences: replies served from long-lived handler buffers
 	runSequences(r, g)
 	// random negotiation headers
 	n := r.Pick(2500, 150000)
 	for k := 0; k < n; k++ {
-		x := plans[g.rng.Intn(len(plans))]
+		kind, types := "", requestTypes
+		if k%3 == 2 {
+			kind, types = muxCustom, customTypes
+		}
+		x := plansOf[kind][g.rng.Intn(len(plansOf[kind]))]
 		var acc []string
 		if g.rng.Intn(8) != 0 {
-			acc = randAccept(g.rng)
+			acc = randAccept(g.rng, kind)
 		}
-		do(x, requestTypes[g.rng.Intn(len(requestTypes))], acc, acceptEncodingPool[g.rng.Intn(len(acceptEncodingPool))])
+		do(x, types[g.rng.Intn(len(types))], acc, acceptEncodingPool[g.rng.Intn(len(acceptEncodingPool))])
 	}
 }
